@@ -1,29 +1,48 @@
 #!/venv/bin/python
-"""Regenerate the table of section 12 of DESIGN.md from seeded/*/{meta,result}.json."""
+"""Regenerate seeded/README.md (one row per seeded change) and the per-property summary of section 12 of DESIGN.md from
+seeded/*/{meta,result}.json."""
 import glob, json, os, re
 
-rows = []
-for d in sorted(glob.glob("/verif/seeded/C*-*")):
+def key(d):
+    p, k = os.path.basename(d).split("-")
+    return (p, int(k))
+
+rows, summary = [], {}
+for d in sorted(glob.glob("/verif/seeded/C*-*"), key=key):
     sid = os.path.basename(d)
     m = json.load(open(f"{d}/meta.json"))
     r = json.load(open(f"{d}/result.json")) if os.path.exists(f"{d}/result.json") else {}
-    caught = []
+    caught, own, sibling = [], False, False
     for p, c in r.get("checks", {}).items():
         if c["rc"] == 1:
             cls = sorted({re.search(r"monitor=(\S+) class=(\S+)", v).group(0).replace("monitor=", "").replace(" class=", "/") for v in c["violations"] if "monitor=" in v})
             rep = "replay: changed tree %s, unchanged tree %s" % ({1: "reproduces", 0: "no"}.get(c.get("replay_on_changed_tree_rc"), "?"), {0: "quiet", 1: "ALARM"}.get(c.get("replay_on_unchanged_tree_rc"), "?"))
             caught.append(f"{p} quick: {', '.join(cls)[:140]} ({rep})")
+            own = own or p == m["property"]
+            sibling = sibling or p != m["property"]
         else:
             caught.append(f"{p} quick: rc {c['rc']} (missed)")
-    extra = m.get("also_caught_by", "")
     note = m.get("note", "")
     summ = (m.get("summary") or "").replace("|", "/").replace("\n", " ")
     needs = (m.get("needs") or "").replace("|", "/").replace("\n", " ")
-    rows.append(f"| `{sid}` | {summ[:260]} | {needs[:200]} | {'; '.join(caught)}{(' ' + extra) if extra else ''}{(' — ' + note) if note else ''} |")
-table = "| id | change | needs | caught by |\n|---|---|---|---|\n" + "\n".join(rows)
+    rows.append(f"| `{sid}` | {summ[:260]} | {needs[:200]} | {'; '.join(caught)}{(' — ' + note) if note else ''} |")
+    s = summary.setdefault(m["property"], {"n": 0, "own": [], "sibling": [], "none": []})
+    s["n"] += 1
+    (s["own"] if own else s["sibling"] if sibling else s["none"]).append(sid)
+table = ("# Independently seeded changes\n\nOne row per change (`patch.diff`, `demo.py`, `meta.json`, `result.json` in the directory of the same name). "
+         "\"caught by\" is the outcome of the registered quick check(s) run against the change in a scratch worktree (`tools/seedcheck.py`), "
+         "including the replay of the first replay file on the changed and on the unchanged tree.\n\n"
+         "| id | change | needs | caught by |\n|---|---|---|---|\n" + "\n".join(rows) + "\n")
+open("/verif/seeded/README.md", "w").write(table)
+lines = ["| property | seeded changes | caught by the property's own quick check | caught by a sibling property only | not caught |", "|---|---|---|---|---|"]
+for p in sorted(summary):
+    s = summary[p]
+    lines.append(f"| {p} | {s['n']} | {len(s['own'])} | {', '.join('`%s`' % x for x in s['sibling']) or '-'} | {', '.join('`%s`' % x for x in s['none']) or '-'} |")
+tot = sum(s["n"] for s in summary.values())
+lines.append(f"| all | {tot} | {sum(len(s['own']) for s in summary.values())} | {sum(len(s['sibling']) for s in summary.values())} | {sum(len(s['none']) for s in summary.values())} |")
 p = "/verif/DESIGN.md"
 s = open(p).read()
 a, b = "<!-- SEED-TABLE-BEGIN -->", "<!-- SEED-TABLE-END -->"
-s = s[: s.index(a) + len(a)] + "\n" + table + "\n" + s[s.index(b):]
+s = s[: s.index(a) + len(a)] + "\nPer change: `seeded/README.md` (what was changed, what it needs, which check and violation class caught it, replay outcomes).\n\n" + "\n".join(lines) + "\n" + s[s.index(b):]
 open(p, "w").write(s)
 print(len(rows), "rows")
